@@ -178,6 +178,14 @@ func (b *Biscuit) Append(rng io.Reader, block *Block) (*Biscuit, error) {
 		(base > b.symbols.Len() || (base != b.symbols.Len() && block.symbols.Len() > 0)) {
 		return nil, ErrSymbolTableMismatch
 	}
+	// ... and a table of the right length is not enough: a sibling's table may hold other strings
+	if block.baseSymbols != nil {
+		for i, s := range *block.baseSymbols {
+			if i >= b.symbols.Len() || (*b.symbols)[i] != s {
+				return nil, ErrSymbolTableMismatch
+			}
+		}
+	}
 
 	// clone biscuit fields and append new block
 	authority := new(Block)
